@@ -33,8 +33,9 @@ def main(argv=None):
     warnings.filterwarnings("ignore")
     try:
         import mokapot
-        if not os.path.abspath(mokapot.__file__).startswith("/repo/"):
-            raise MachineryError("mokapot resolves to %s, not /repo" % mokapot.__file__)
+        repo = os.environ.get("VERIF_REPO", "/repo").rstrip("/")
+        if not os.path.abspath(mokapot.__file__).startswith(repo + "/"):
+            raise MachineryError("mokapot resolves to %s, not %s" % (mokapot.__file__, repo))
         if a.replay:
             with open(a.replay) as fh:
                 case = json.load(fh)
